@@ -1,20 +1,23 @@
 #!/bin/bash
 # tools/refac_check.sh <patch-dir>... : for each behaviour-preserving refactoring (patch.diff in the dir) apply it
-# to a scratch worktree of /repo HEAD and run ALL 20 checks; any non-zero exit is a false alarm to investigate.
+# to a scratch worktree of /repo HEAD and run ALL 20 checks (or those in $PROPS); any non-zero exit is a false alarm to investigate.
 export GOFLAGS=-mod=mod GOPROXY=off GOSUMDB=off GOTOOLCHAIN=local
 here="$(cd "$(dirname "$0")/.." && pwd)"
 (cd "$here/kgv" && go build -o "$here/bin/kgv" ./cmd/kgv) || exit 2
+props="${PROPS:-$(seq -f "C%02g" 1 20)}"
 for d in "$@"; do
+  d="$(cd "$d" && pwd)"
   wt=$(mktemp -u /tmp/kgv-rf-XXXXXX); root=$(mktemp -d /tmp/kgv-rfroot-XXXXXX)
   cp "$here/known_findings.json" "$here/properties.jsonl" "$root/"
   git -C /repo worktree add -q --detach "$wt" HEAD || continue
   if ! (cd "$wt" && git apply "$d/patch.diff"); then echo "$d: PATCH DOES NOT APPLY"; git -C /repo worktree remove --force "$wt"; continue; fi
   (cd "$wt" && go build ./... ) || echo "$d: BUILD FAILED"
-  seq -f "C%02g" 1 20 | xargs -P 10 -I{} sh -c "'$here/bin/kgv' check -prop {} -repo '$wt' -root '$root' > '$root/{}.log' 2>&1; echo \$? > '$root/{}.rc'"
+  echo $props | tr ' ' '\n' | xargs -P 10 -I{} sh -c "'$here/bin/kgv' check -prop {} -repo '$wt' -root '$root' > '$root/{}.log' 2>&1; echo \$? > '$root/{}.rc'"
   bad=""
-  for p in $(seq -f "C%02g" 1 20); do
+  for p in $props; do
     if [ "$(cat $root/$p.rc)" != "0" ]; then bad="$bad $p:$(grep '^VIOLATED\|^UNDECIDED' $root/$p.log | sed -E 's/^[A-Z]+: \S+ (\S+) .*\[(.*)\].*/\1[\2]/' | cut -c1-110 | head -3 | tr '\n' ';')"; fi
   done
-  if [ -z "$bad" ]; then echo "$d: silent (20 checks)"; else echo "$d: ALARM $bad"; fi
+  if [ -n "$VERBOSE" ]; then for p in $props; do grep -h '^VIOLATED\|^UNDECIDED' $root/$p.log | cut -c1-600; done; fi
+  if [ -z "$bad" ]; then echo "$d: silent ($(echo $props | wc -w) checks)"; else echo "$d: ALARM $bad"; fi
   git -C /repo worktree remove --force "$wt"; rm -rf "$root"
 done
